@@ -17,7 +17,7 @@ DVKINDS = [k for k in KINDS if k != "u8c"]
 OTHER = ["every", "some", "find", "findIndex", "findLast", "findLastIndex", "forEach", "map", "filter", "toSorted",
          "reduce", "reduceRight", "indexOf", "lastIndexOf", "includes", "at", "join", "with", "toReversed",
          "toString", "toLocaleString", "keys", "values", "entries", "iterate", "export"]
-PROPS_MIN = 62
+PROPS_MIN = 64
 
 
 def f64(x):
